@@ -41,7 +41,26 @@ def load_praatio():
     sys.path[:] = [p for p in sys.path if os.path.realpath(p or ".") != src]
     sys.path.insert(0, src)
     sys.dont_write_bytecode = True
-    import praatio  # noqa
+    # every praatio module is imported while sys.stdout / sys.stderr are temporary streams that are CLOSED afterwards (a start-up log buffer, a
+    # `with redirect_stdout(...)` around a lazy import): a library that binds "the output stream" at import time (a default argument
+    # `stream=sys.stdout`, a module-level `_out = sys.stdout`) holds a dead stream from then on
+    import io
+    import pkgutil
+    import importlib
+    real_out, real_err = sys.stdout, sys.stderr
+    tmp_out, tmp_err = io.StringIO(), io.StringIO()
+    sys.stdout, sys.stderr = tmp_out, tmp_err
+    try:
+        import praatio  # noqa
+        for m in pkgutil.walk_packages(praatio.__path__, "praatio."):
+            try:
+                importlib.import_module(m.name)
+            except Exception:      # praatio.tgio / praatio.praatio_io exist only to tell users of 4.x that they were renamed: importing them raises
+                pass
+    finally:
+        sys.stdout, sys.stderr = real_out, real_err
+        tmp_out.close()
+        tmp_err.close()
 
     where = os.path.realpath(praatio.__file__)
     if not where.startswith(src + os.sep):
